@@ -990,7 +990,8 @@ func ParseAggregateTypeWithExpression(exprStr string) (aggType aggregator.Aggreg
 		// If not a function call but contains operators or keywords, it might be an expression
 		if strings.ContainsAny(exprStr, "+-*/<>=!&|") ||
 			strings.Contains(strings.ToUpper(exprStr), "AND") ||
-			strings.Contains(strings.ToUpper(exprStr), "OR") {
+			strings.Contains(strings.ToUpper(exprStr), "OR") ||
+			isNullTestPattern.MatchString(exprStr) {
 			// Handle as expression
 			if parsedExpr, err := expr.NewExpression(exprStr); err == nil {
 				allFields = parsedExpr.GetFields()
@@ -1039,6 +1040,10 @@ func ParseAggregateTypeWithExpression(exprStr string) (aggType aggregator.Aggreg
 		return "", "", "", nil, nil
 	}
 }
+
+// isNullTestPattern matches "x IS [NOT] NULL" and "x [NOT] LIKE 'p'" in a SELECT item:
+// such an item is a boolean expression, not a column named "x IS NULL".
+var isNullTestPattern = regexp.MustCompile(`(?i)\s(IS\s+(NOT\s+)?NULL\b|LIKE\s)`)
 
 // extractFunctionName extracts function name from expression
 func extractFunctionName(expr string) string {
